@@ -487,6 +487,29 @@ fn const_json<'tcx>(tcx: TyCtxt<'tcx>, tenv: TypingEnv<'tcx>, c: &ConstOperand<'
                     o.push(("item", J::s(&tcx.def_path_str(uv.def))));
                 } else {
                     o.push(("promoted", J::Bool(true)));
+                    // a promoted `&Enum::Variant`: name the variant (e.g. &ErrorKind::Interrupted)
+                    if let Some(p) = uv.promoted {
+                        if uv.def.is_local() {
+                            let bodies = tcx.promoted_mir(uv.def);
+                            if p.as_usize() < bodies.len() {
+                                for bb in bodies[p].basic_blocks.iter() {
+                                    for st in &bb.statements {
+                                        if let StatementKind::Assign(b) = &st.kind {
+                                            if let Rvalue::Aggregate(k, _) = &b.1 {
+                                                if let AggregateKind::Adt(did, vi, _, _, _) = &**k {
+                                                    let def = tcx.adt_def(*did);
+                                                    if def.is_enum() {
+                                                        let nm = format!("{}::{}", tcx.def_path_str(*did), def.variant(*vi).name);
+                                                        o.push(("variant", J::s(&nm)));
+                                                    }
+                                                }
+                                            }
+                                        }
+                                    }
+                                }
+                            }
+                        }
+                    }
                 }
             }
         }
